@@ -1,6 +1,7 @@
 (* Props/C10.v - Every initialised session is closed exactly once; every connection is released. *)
 From Coq Require Import List Arith NArith Lia Bool.
 From MM Require Import Lib.Bytes Model.Conn Proofs.ConnInv Proofs.C10Proofs Gen.FactsConn Gen.FactsControl Proofs.FuelProofs.
+From MM Require Import Gen.FactsOutline.
 Import ListNotations.
 Open Scope N_scope.
 
@@ -17,6 +18,12 @@ Theorem c10_source_shape :
   (* the registry a kill travels through and the connection is released from *)
   control_add_remove_kill_ok = true /\ server_cb_finally_ok = true.
 Proof. repeat split; reflexivity. Qed.
+
+(* the modules this property rests on define the functions, classes, methods and class-level names they defined when the
+   model was transcribed - nothing added (an override, a new helper in the path), removed or renamed *)
+Theorem c10_module_outlines : translated_outline = true /\ outline_connection_ok = true /\ outline_control_ok = true /\ outline_server_ok = true /\ outline_stream_ok = true.
+Proof. repeat split; reflexivity. Qed.
+
 
 (* For EVERY list of events - commands, disconnects (clean, mid-packet, bad sequence id), socket failures,
    pauses, kills of either kind, application results and exceptions from any callback, in any order:
